@@ -20,6 +20,7 @@ pub struct ApiInfo {
     pub name: &'static str,
     pub sig: &'static str,
     pub width: u8,
+    pub kind: u8,
     pub present: bool,
 }
 pub const K_F32: u8 = 0;
@@ -150,7 +151,7 @@ fn describe(o: &CObs) -> String {
 }
 
 /// Compare the test backend's observation with the reference's, given the reference's observations on perturbed inputs.
-fn compare(t: &CObs, r: &CObs, pert: &[Result<CObs, String>], extra_abs: f64) -> Verdict {
+fn compare(t: &CObs, r: &CObs, pert: &[Result<CObs, String>], extra_abs: f64, exact: bool) -> Verdict {
     if t.strs != r.strs {
         return Verdict::Bad(format!("formatted output differs: {:?} vs reference {:?}", t.strs, r.strs));
     }
@@ -215,6 +216,9 @@ fn compare(t: &CObs, r: &CObs, pert: &[Result<CObs, String>], extra_abs: f64) ->
                     continue; // -0 vs +0
                 }
                 let g = r.g[i] as usize;
+                if exact {
+                    return Verdict::Bad(format!("element-wise / data-move operation differs between backends (no re-association slack applies): lane {i}: {:?} vs reference {:?}; [{}] vs reference [{}]", a, b, describe(t), describe(r)));
+                }
                 if unstable[g] {
                     boundary = true;
                     continue;
@@ -231,10 +235,11 @@ fn compare(t: &CObs, r: &CObs, pert: &[Result<CObs, String>], extra_abs: f64) ->
                 return Verdict::Bad(format!("f64 result word {i} differs: [{}] vs reference [{}]", describe(t), describe(r)));
             }
             _ => {
-                let flips = pert.iter().any(|p| match p {
-                    Ok(p) => !same_shape(p) || p.w[i] != r.w[i],
-                    Err(_) => true,
-                });
+                let flips = !exact
+                    && pert.iter().any(|p| match p {
+                        Ok(p) => !same_shape(p) || p.w[i] != r.w[i],
+                        Err(_) => true,
+                    });
                 if flips {
                     boundary = true;
                 } else {
@@ -252,6 +257,50 @@ fn compare(t: &CObs, r: &CObs, pert: &[Result<CObs, String>], extra_abs: f64) ->
         return Verdict::Bad(format!("differs by {:.3} x the re-association tolerance (K = {K}): [{}] vs reference [{}]", worst, describe(t), describe(r)));
     }
     Verdict::Ok { ratio: worst, boundary, identical, amplifies }
+}
+
+/// Element-wise operations and pure data moves: one rounding per element in every backend and no additions to
+/// re-associate, so the slack the statement grants is zero and the backends must agree as IEEE values.
+fn exact_class(e: &ApiInfo) -> bool {
+    const ELEMENTWISE_TYPES: [&str; 6] = ["Vec3A", "Vec4", "f32", "BVec3A", "BVec4A", "Vec3"];
+    let toks: Vec<&str> = e.sig.split(|c: char| !c.is_alphanumeric()).filter(|t| !t.is_empty()).collect();
+    if e.kind == 1 {
+        let n = e.name;
+        if ["Add", "Sub", "Neg", "AddAssign", "SubAssign", "Not", "BitAnd", "BitOr", "BitXor", "BitAndAssign", "BitOrAssign", "BitXorAssign", "PartialEq", "From",
+            "AsRef", "AsMut", "Index", "IndexMut", "Deref", "DerefMut", "Default", "Hash", "fmt::Display", "fmt::Debug", "Sum"]
+            .contains(&n)
+        {
+            return true;
+        }
+        if n.starts_with("swizzle::") {
+            return true;
+        }
+        if ["Mul", "Div", "Rem", "MulAssign", "DivAssign", "RemAssign"].contains(&n) {
+            // `impl Mul<X> for Y`: element-wise iff both sides are vectors / scalars, or a matrix-like type with a scalar
+            let types: Vec<&str> = toks.iter().copied().filter(|t| t.chars().next().map_or(false, |c| c.is_uppercase()) || *t == "f32").filter(|t| !["Mul", "Div", "Rem", "MulAssign", "DivAssign", "RemAssign", "Self"].contains(t)).collect();
+            let all_elementwise = types.iter().all(|t| ELEMENTWISE_TYPES.contains(t));
+            let scalar_scaling = types.contains(&"f32") && types.iter().filter(|t| **t != "f32").count() == 1 && n != "Rem" && n != "RemAssign";
+            return all_elementwise || scalar_scaling;
+        }
+        if n == "Product" {
+            return ["Vec3A", "Vec4"].contains(&e.ty);
+        }
+        return false;
+    }
+    const EXACT: [&str; 92] = [
+        "new", "splat", "select", "from_array", "to_array", "from_slice", "write_to_slice", "truncate", "extend", "with_x", "with_y", "with_z", "with_w", "min", "max",
+        "clamp", "abs", "signum", "copysign", "floor", "ceil", "round", "trunc", "fract", "fract_gl", "recip", "cmpeq", "cmpne", "cmpge", "cmpgt", "cmple", "cmplt",
+        "is_negative_bitmask", "is_finite", "is_finite_mask", "is_nan", "is_nan_mask", "min_element", "max_element", "min_position", "max_position", "div_euclid",
+        "rem_euclid", "exp", "powf", "mul_add", "map", "midpoint", "from_cols", "from_cols_array", "to_cols_array", "from_cols_array_2d", "to_cols_array_2d",
+        "from_cols_slice", "write_cols_to_slice", "from_diagonal", "col", "row", "col_mut", "transpose", "mul_scalar", "div_scalar", "add_mat2", "sub_mat2", "add_mat3",
+        "sub_mat3", "add_mat4", "sub_mat4", "from_mat3", "from_mat3a", "from_mat4", "from_mat2", "from_mat3_minor", "from_mat3a_minor", "from_mat4_minor", "conjugate",
+        "xyz", "from_xyzw", "from_vec4", "test", "set", "any", "all", "bitmask", "from_translation", "from_scale", "from_mat3_translation", "from_mat2_translation",
+        "to_vec3", "to_vec3a", "is_nan_mask", "abs_diff_eq",
+    ];
+    if e.ty == "Quat" && ["from_mat3", "from_mat3a", "from_mat4"].contains(&e.name) {
+        return false; // matrix -> quaternion takes square roots of sums
+    }
+    EXACT.contains(&e.name) || e.name.starts_with("as_")
 }
 
 /// documented approximation differences between backends get an absolute allowance (DESIGN.md section 4)
@@ -276,11 +325,15 @@ fn step(test: RunFn, reference: RunFn, api: &[ApiInfo], id: u32, args: &[u64], p
         (a, b) => return Err(mk(format!("one backend panicked: reference {:?}, test {:?}", a.err(), b.err()))),
     };
     let mut pert: Vec<Result<CObs, String>> = (0..10u64).map(|p| reference(id, &perturb(args, &kinds, p, pseed), None)).collect();
-    let mut v = compare(&tt, &r, &pert, extra_abs(e));
+    let exact = exact_class(e);
+    if exact {
+        t.class_n("exact-class-ops", 1);
+    }
+    let mut v = compare(&tt, &r, &pert, extra_abs(e), exact);
     if let Verdict::Bad(_) = v {
         // escalate: 256 further sign patterns with 1..4 eps magnitudes before anything is reported
         pert.extend((10..266u64).map(|p| reference(id, &perturb(args, &kinds, p, pseed), None)));
-        v = compare(&tt, &r, &pert, extra_abs(e));
+        v = compare(&tt, &r, &pert, extra_abs(e), exact);
         t.class("escalated");
     }
     match v {
